@@ -11,15 +11,16 @@
 (*                      is the original, or the error is "Unspecified type" and some    *)
 (*                      constant / binder type had been erased                          *)
 (*   OwnError        :  an exception of a foreign class (DESIGN section 4 rule 4)        *)
-(*   Terminates      :  RecursionError / MemoryError / timeout AND the as-coded model    *)
-(*                      without a final occurs check (C08_InferAlgo) accepts a cyclic    *)
-(*                      binding for this very skeleton (rule 5: model-level explanation);*)
+(*   Terminates      :  RecursionError / MemoryError / timeout AND the as-found model    *)
+(*                      (C08_InferAlgo with the cached-reach occurs check) accepts a     *)
+(*                      cyclic binding for this very skeleton (rule 5: model-level       *)
+(*                      explanation);                                                    *)
 (*                      without the explanation the event is only a divergence (SUSPECT) *)
 (* Divergence (informational): the outcome differs from the outcome of the algorithm     *)
-(* model with the parameters (C08_FOC, C08_AVC) that the check derived from its probe.   *)
+(* model with the parameters (C08_EOC, C08_AVC) that the check derived from its probe.   *)
 EXTENDS C08_Contract, TraceLib
 
-FOC == IOEnv.C08_FOC = "TRUE"
+EOC == IOEnv.C08_EOC = "TRUE"
 AVC == IOEnv.C08_AVC = "TRUE"
 MaxModelSize == 120
 \* the event is inside the property's quantifier: a well-formed skeleton over declared constants
@@ -27,14 +28,14 @@ InQuantifier(e) == WellFormed(e.skel, 0) /\ \A c \in ConstOccs(e.skel) : c[2] \i
 Resource(e) == e.outcome = "timeout" \/ (e.outcome = "other" /\ e.cls \in {"RecursionError", "MemoryError"})
 Kind(e) == IF e.outcome \in {"term", "own"} THEN e.outcome ELSE "foreign"
 ErasureOf(e) == e.orig # NoTerm /\ ErasureApplies(e.skel, e.ctx, e.sig, e.orig)
-Explained(e) == Size(e.skel) <= MaxModelSize /\ Outcome(e.skel, e.ctx, e.sig, FALSE, AVC, TRUE).kind = "diverged"
+Explained(e) == Size(e.skel) <= MaxModelSize /\ Outcome(e.skel, e.ctx, e.sig, Opt(FALSE, AVC), TRUE).kind = "diverged"
 Clauses(e) ==
   IF ~InQuantifier(e) THEN {}
   ELSE (IF e.outcome = "term" THEN GoodClauses(e.skel, e.ctx, e.sig, e.result) ELSE {})
        \cup (IF e.outcome \in {"term", "own"} /\ ErasureOf(e) THEN ErasureClauses(e.skel, e.outcome, e.err, e.result, e.orig) ELSE {})
        \cup (IF Resource(e) THEN (IF Explained(e) THEN {"Terminates"} ELSE {})
              ELSE IF e.outcome = "other" THEN {"OwnError"} ELSE {})
-Model(e) == Outcome(e.skel, e.ctx, e.sig, FOC, AVC, TRUE)
+Model(e) == Outcome(e.skel, e.ctx, e.sig, Opt(EOC, AVC), TRUE)
 Agrees(e) == LET m == Model(e) IN
    CASE e.outcome = "term" -> m.kind = "term" /\ m.t = e.result
      [] e.outcome = "own" -> m.kind = "own" /\ m.err = e.err
